@@ -351,6 +351,12 @@ func buildReplicatedkv(cfg map[string]int) (*steplib.System, func(), error) {
 func buildRaftkvs(cfg map[string]int) (*steplib.System, func(), error) {
 	p := raftstep.Params{N: cfg["NumServers"], NC: cfg["NumClients"], Buf: cfg["BufferSize"], Fifo: false,
 		ExploreFail: cfg["ExploreFail"] != 0, Keys: 1, Vals: 1}
+	if cfg["Keys"] > 0 { // corpus schedules of other properties (lib/c02_corpus.py)
+		p.Keys = cfg["Keys"]
+	}
+	if cfg["Vals"] > 0 {
+		p.Vals = cfg["Vals"]
+	}
 	if p.ExploreFail {
 		for i := 1; i <= cfg["MaxNodeFail"]; i++ {
 			p.Crashers = append(p.Crashers, i)
